@@ -25,7 +25,7 @@ Base(p, ao, ty, h) ==
     LET d == Delta(1, p, 1) IN [sd |-> SD(ModelHash(d, h), 2, ao, ty), delta |-> d, h |-> h]
 
 Reser == {"none", "member_order", "whitespace", "escapes"}
-SdMods == {"sd_deltahash", "sd_deltahash_truncated", "sd_deltahash_empty_digest", "sd_recoverycommitment",
+SdMods == {"sd_deltahash", "sd_deltahash_truncated", "sd_deltahash_empty_digest", "sd_deltahash_respelled", "sd_recoverycommitment",
            "sd_anchororigin", "sd_type"}
 DeltaMods == {"delta_updatecommitment", "delta_patch_content", "delta_patch_added", "delta_patch_removed",
               "delta_null_member_added"}
@@ -40,6 +40,9 @@ Modify(r, m) ==
       \* a different hash value, hence a different DID, and it does not bind the delta
       [] m = "sd_deltahash_truncated"    -> [r EXCEPT !.sd.dh = <<"truncated", @>>]
       [] m = "sd_deltahash_empty_digest" -> [r EXCEPT !.sd.dh = <<"empty-digest", @>>]
+      \* the same multihash bytes in another base64url spelling: another string, hence other suffix data and
+      \* another DID, and not the string the delta hashes to
+      [] m = "sd_deltahash_respelled"    -> [r EXCEPT !.sd.dh = <<"respelled", @>>]
       [] m = "sd_recoverycommitment" -> [r EXCEPT !.sd.rc = Fresh]
       [] m = "sd_anchororigin"       -> [r EXCEPT !.sd.ao = IF @ = 0 THEN Fresh ELSE IF @ = 1 THEN Fresh ELSE 0]
       [] m = "sd_type"               -> [r EXCEPT !.sd.ty = IF @ = 0 THEN Fresh ELSE 0]
